@@ -10,24 +10,17 @@ Open Scope Z_scope.
 
 (* T11.rt  Reading back what .w wrote gives the value, as kg_asarray normalises it — for EVERY
    writable value: integers, finite reals, characters and strings over any code points, valid
-   symbols, lists of these to any depth, top-level dictionaries of them. *)
+   symbols, lists of these to any depth, dictionaries of them at top level, inside lists and
+   inside dictionaries, to any depth. *)
 Theorem C11_read_back_rs : forall E, env_ok E -> forall v, writable E v = true ->
-  rs E gen_cfg_rs (write E gen_cfg_rs v) = Ok (asarray E v).
-Proof.
-  exact (fun E HE v Hw =>
-    eq_ind_r (fun c => rs E c (write E c v) = Ok (asarray E v)) (rs_written E HE v Hw)
-             (eq_refl : gen_cfg_rs = std_cfg)).
-Qed.
+  rs E gen_cfg_rs gen_rs_ignore_newline (write E gen_cfg_rs v) = Ok (asarray E v).
+Proof. exact (fun E HE v Hw => rs_written_cfg E HE gen_cfg_rs eq_refl v gen_rs_ignore_newline Hw). Qed.
 Print Assumptions C11_read_back_rs.
 
 (* the same through the .r call site *)
 Theorem C11_read_back_r : forall E, env_ok E -> forall v, writable E v = true ->
-  rs E gen_cfg_r (write E gen_cfg_r v) = Ok (asarray E v).
-Proof.
-  exact (fun E HE v Hw =>
-    eq_ind_r (fun c => rs E c (write E c v) = Ok (asarray E v)) (rs_written E HE v Hw)
-             (eq_refl : gen_cfg_r = std_cfg)).
-Qed.
+  rs E gen_cfg_r gen_r_ignore_newline (write E gen_cfg_r v) = Ok (asarray E v).
+Proof. exact (fun E HE v Hw => rs_written_cfg E HE gen_cfg_r eq_refl v gen_r_ignore_newline Hw). Qed.
 Print Assumptions C11_read_back_r.
 
 (* what is read back matches what was written (integers that NumPy turned into reals match them) *)
@@ -38,15 +31,15 @@ Print Assumptions C11_read_back_matches.
 (* The property as stated. *)
 Definition C11_full_statement (E : env) (c : cfg) : Prop :=
   forall v, writable E v = true ->
-  exists v', rs E c (write E c v) = Ok v' /\ vmatch E v v' = true /\ write E c v' = write E c v.
+  exists v', rs E c false (write E c v) = Ok v' /\ vmatch E v v' = true /\ write E c v' = write E c v.
 
 (* It holds for every value that is in kg_asarray's normal form — all values klongpy itself
    produces by reading: the value comes back EXACTLY and therefore writes identically. *)
 Theorem C11_roundtrip_normal : forall E, env_ok E -> forall v, writable E v = true -> asarray E v = v ->
-  rs E gen_cfg_rs (write E gen_cfg_rs v) = Ok v /\ vmatch E v v = true.
+  rs E gen_cfg_rs gen_rs_ignore_newline (write E gen_cfg_rs v) = Ok v /\ vmatch E v v = true.
 Proof.
   exact (fun E HE v Hw Hn =>
-    conj (eq_ind (asarray E v) (fun x => rs E gen_cfg_rs (write E gen_cfg_rs v) = Ok x) (C11_read_back_rs E HE v Hw) v Hn)
+    conj (eq_ind (asarray E v) (fun x => rs E gen_cfg_rs gen_rs_ignore_newline (write E gen_cfg_rs v) = Ok x) (C11_read_back_rs E HE v Hw) v Hn)
          (vmatch_refl E v (wr_pure E v false Hw))).
 Qed.
 Print Assumptions C11_roundtrip_normal.
@@ -60,7 +53,7 @@ Print Assumptions C11_normalisation_idempotent.
    round-trips exactly from then on: it is read back as itself and therefore writes identically *)
 Theorem C11_second_roundtrip_exact : forall E, env_ok E -> forall v,
   writable E v = true -> writable E (asarray E v) = true ->
-  rs E gen_cfg_rs (write E gen_cfg_rs (asarray E v)) = Ok (asarray E v).
+  rs E gen_cfg_rs gen_rs_ignore_newline (write E gen_cfg_rs (asarray E v)) = Ok (asarray E v).
 Proof.
   exact (fun E HE v _ Hw' => proj1 (C11_roundtrip_normal E HE (asarray E v) Hw' (asarray_idem E v))).
 Qed.
@@ -78,7 +71,7 @@ Definition env_witness : env := {|
    "[1 2.5]", read back as [1.0 2.5], which writes "[1.0 2.5]". *)
 Theorem C11_mixed_refuted :
   exists v v', writable env_witness v = true /\
-    rs env_witness gen_cfg_rs (write env_witness gen_cfg_rs v) = Ok v' /\
+    rs env_witness gen_cfg_rs false (write env_witness gen_cfg_rs v) = Ok v' /\
     vmatch env_witness v v' = true /\
     write env_witness gen_cfg_rs v' <> write env_witness gen_cfg_rs v.
 Proof.
@@ -89,8 +82,9 @@ Qed.
 
 (* The three defects repaired by fix: commits, as witnesses against the OLD flag values
    (the theorems above are about the regenerated flags). *)
-Definition with_flags (reread top_neg build : bool) : cfg := {|
+Definition with_flags (reread top_neg build nested : bool) : cfg := {|
   c_delims := c_delims std_cfg; c_reread := reread; c_list_neg := true; c_top_neg := top_neg; c_build_dict := build;
+  c_build_nested := nested;
   c_sym_pre := c_sym_pre std_cfg; c_chr_pre := c_chr_pre std_cfg;
   c_lopen := c_lopen std_cfg; c_lsep := c_lsep std_cfg; c_lclose := c_lclose std_cfg;
   c_dopen := c_dopen std_cfg; c_dsep := c_dsep std_cfg; c_dclose := c_dclose std_cfg;
@@ -98,55 +92,89 @@ Definition with_flags (reread top_neg build : bool) : cfg := {|
 
 (* R5: without evaluating the constructor, a written dictionary reads back as a call object *)
 Theorem C11_dict_refuted_without_build : forall E,
-  let c := with_flags false true false in
-  rs E c (write E c (VDict [(VInt 1, VInt 2)])) = Ok (VOpaque 2).
+  let c := with_flags false true false false in
+  rs E c false (write E c (VDict [(VInt 1, VInt 2)])) = Ok (VOpaque 2).
 Proof. intro E. vm_compute. reflexivity. Qed.
+
+(* building only the top-level dictionary (fix 9a0e1a7 alone): a dictionary inside a list or inside a
+   dictionary stays a call object *)
+Theorem C11_nested_dict_refuted_top_only : forall E,
+  let c := with_flags false true true false in
+  rs E c false (write E c (VList [VInt 7; VDict [(VInt 1, VInt 2)]])) = Ok (VList [VInt 7; VOpaque 2]) /\
+  rs E c false (write E c (VDict [(VInt 1, VDict [(VInt 2, VInt 3)])])) = Ok (VDict [(VInt 1, VOpaque 2)]).
+Proof. intro E. vm_compute. split; reflexivity. Qed.
 
 (* with the re-entry on "[" in read_list, ["[" 1] reads back as [[1]] *)
 Theorem C11_bracket_refuted_with_reread : forall E,
-  let c := with_flags true true true in
-  rs E c (write E c (VList [VStr [91]; VInt 1])) = Ok (VList [VList [VInt 1]]).
+  let c := with_flags true true true true in
+  rs E c false (write E c (VList [VStr [91]; VInt 1])) = Ok (VList [VList [VInt 1]]).
 Proof. intro E. vm_compute. reflexivity. Qed.
 
 (* without read_neg at the call site (.r before the fix), -5 reads back as the operator - *)
 Theorem C11_negative_refuted_without_read_neg : forall E,
-  let c := with_flags false false true in
-  rs E c (write E c (VInt (-5))) = Ok (VOpaque 1).
+  let c := with_flags false false true true in
+  rs E c false (write E c (VInt (-5))) = Ok (VOpaque 1).
 Proof. intro E. vm_compute. reflexivity. Qed.
 
 (* .r on a channel.  A file holding the written text of ANY number of writable values, separated by
-   k+1 blanks and optionally followed by blanks, read with .r() again and again on the same channel
-   (read from the position, parse one object, advance by the characters consumed): the values come
-   back one per call, in order, each as kg_asarray normalises it, then nothing.  The two regenerated
-   flags say that the text handed to the parser is the text the offset refers to (no strip in between)
-   and that the channel is advanced by characters, not by treating the count as a byte offset. *)
-Theorem C11_channel_reads_all : forall E, env_ok E -> forall k trail vs,
+   any non-empty white space (blanks, tabs, line breaks) and optionally followed by white space, read with
+   .r() again and again on the same channel (read from the position, parse one object, advance by the
+   characters consumed): the values come back one per call, in order, each as kg_asarray normalises it,
+   then nothing.  The regenerated flags say that the text handed to the parser is the text the offset
+   refers to (no strip in between), that the channel is advanced by characters (not by using the count
+   as a byte offset), and that .r reads with ignore_newline. *)
+Theorem C11_channel_reads_all : forall E, env_ok E -> forall sep trail vs,
+  wsb sep = true -> sep <> [] -> wsb trail = true ->
   Forall (fun v => writable E v = true) vs ->
-  read_file E gen_cfg_r gen_r_lstrip gen_r_reposition_bytes (file_text E k vs ++ repeat 32 trail)
+  read_file E gen_cfg_r gen_r_lstrip gen_r_reposition_bytes gen_r_ignore_newline (file_text E sep vs ++ trail)
     = Ok (map (asarray E) vs).
 Proof.
-  exact (fun E HE => read_file_written_cfg E HE gen_cfg_r gen_r_lstrip gen_r_reposition_bytes eq_refl eq_refl eq_refl).
+  exact (fun E HE => read_file_written_cfg E HE gen_cfg_r gen_r_lstrip gen_r_reposition_bytes gen_r_ignore_newline
+                       eq_refl eq_refl eq_refl eq_refl).
 Qed.
 Print Assumptions C11_channel_reads_all.
 
 (* stripping the text before parsing while advancing the channel by the offset into the stripped text:
    "[1 2] [3 4] [5 6]" comes back as five objects, the third is the string "]" *)
 Theorem C11_channel_refuted_with_lstrip : forall E,
-  read_file E std_cfg true false (file_text E 0 [VList [VInt 1; VInt 2]; VList [VInt 3; VInt 4]; VList [VInt 5; VInt 6]])
+  read_file E std_cfg true false true (file_text E [32] [VList [VInt 1; VInt 2]; VList [VInt 3; VInt 4]; VList [VInt 5; VInt 6]])
     = Ok [VList [VInt 1; VInt 2]; VList [VInt 3; VInt 4]; VStr [93]; VList [VInt 5; VInt 6]; VStr [93]].
 Proof. intro E. vm_compute. reflexivity. Qed.
 
 (* the character count used as a byte offset (seek(k+i), before fix 1ef3c68): after the string "e-acute"
    the next .r starts at its closing quote *)
 Theorem C11_channel_refuted_with_byte_offsets : forall E,
-  read_file E std_cfg false true (file_text E 0 [VStr [233]; VInt 5; VInt 6]) = Ok [VStr [233]; VStr [32; 53; 32; 54]].
+  read_file E std_cfg false true true (file_text E [32] [VStr [233]; VInt 5; VInt 6]) = Ok [VStr [233]; VStr [32; 53; 32; 54]].
 Proof. intro E. vm_compute. reflexivity. Qed.
 
-(* T11.form  Form inverts Format on atoms: x:$$x is x *)
-Theorem C11_form_inverts_format : forall E, env_ok E -> forall x, atom x = true -> wr E false x = true ->
-  exists t, format E x = Some t /\ form E x t = Some x.
+(* .r without ignore_newline (before the fix): a line break between two objects is read as the token ";" *)
+Theorem C11_channel_refuted_without_ignore_newline : forall E,
+  read_file E std_cfg false false false (file_text E [10] [VInt 1; VInt 2]) = Ok [VInt 1; VStr [59]; VInt 2].
+Proof. intro E. vm_compute. reflexivity. Qed.
+
+(* T11.form  Form inverts Format: x:$$x is x for EVERY integer, EVERY finite real, EVERY character,
+   EVERY string (any code points, also empty, blank-padded, number- or symbol-looking) and EVERY symbol
+   (any name) — atom_ok is exactly: not a list, not a dictionary, and a real must be finite. *)
+Theorem C11_form_inverts_format : forall E, env_ok E -> forall x, atom_ok x = true ->
+  exists t, format E x = Some t /\ form E x t = FVal x.
 Proof. exact form_format. Qed.
 Print Assumptions C11_form_inverts_format.
+
+(* For numbers the same holds through Format2 with ANY integer width w (w$x pads with blanks on the right
+   for w > 0, on the left for w < 0): x:$(w$x) is x.  For reals this needs that float() ignores blanks
+   around the text (hypothesis float_ignores_blanks, exercised per run); for integers int() is modelled. *)
+Theorem C11_form_inverts_format2_numbers : forall E, env_ok E -> float_ignores_blanks E ->
+  forall w x, num_ok x = true -> exists t, format2 E (VInt w) x = Some t /\ form E x t = FVal x.
+Proof. exact form_format2_num. Qed.
+Print Assumptions C11_form_inverts_format2_numbers.
+
+(* Padded characters, strings and symbols are NOT inverted, by the definition of Form (a string template returns
+   the text as it is, a character template needs exactly one character): documented behaviour, not a defect. *)
+Example C11_form_padded_not_inverted : forall E,
+  format2 E (VInt 4) (VStr [97]) = Some [97; 32; 32; 32] /\ form E (VStr [97]) [97; 32; 32; 32] = FVal (VStr [97; 32; 32; 32]) /\
+  form E (VChar 97) [97; 32] = FUndef /\ form E (VSym [97]) [58; 97; 32] = FVal (VSym [97; 32]) /\
+  format2 E (VInt 0) (VSym [97]) = Some [97].
+Proof. intro E. vm_compute. repeat split; reflexivity. Qed.
 
 (* Integers need no assumption: decimal text of any Z parses back. *)
 Theorem C11_integer_text : forall z, parse_int (write_int z) = Some z.
@@ -159,9 +187,9 @@ Print Assumptions C11_integer_text.
 Example C11_example :
   let v := VList [VInt (-2); VStr [34; 91; 58; 34; 10]; VChar 91; VSym [97; 46; 98]; VList []; VList [VList [VInt 1; VInt 2]; VList [VInt 3; VInt 4]]] in
   writable env_witness v = true /\ asarray env_witness v = v /\
-  rs env_witness gen_cfg_rs (write env_witness gen_cfg_rs v) = Ok v /\
-  rs env_witness gen_cfg_rs (write env_witness gen_cfg_rs (VDict [(VStr [107], VList [VInt 1]); (VInt (-3), VChar 125)]))
-    = Ok (VDict [(VStr [107], VList [VInt 1]); (VInt (-3), VChar 125)]).
+  rs env_witness gen_cfg_rs false (write env_witness gen_cfg_rs v) = Ok v /\
+  (let d := VList [VInt 7; VDict [(VStr [107], VList [VInt 1; VDict [(VSym [97], VDict [])]]); (VInt (-3), VChar 125)]] in
+   writable env_witness d = true /\ rs env_witness gen_cfg_rs false (write env_witness gen_cfg_rs d) = Ok d).
 Proof. vm_compute. repeat split; reflexivity. Qed.
 
 (* env_ok is satisfiable on the reals of the witness environment (the harness exercises it on
@@ -173,8 +201,8 @@ Proof. vm_compute. repeat split; reflexivity. Qed.
 
 (* ... and env_ok as a whole is satisfiable (by a toy conversion: the bit pattern in decimal followed by ".0") *)
 Example C11_channel_example :
-  read_file env_witness gen_cfg_r gen_r_lstrip gen_r_reposition_bytes
-    (file_text env_witness 1 [VList [VInt 1; VInt (-2)]; VStr [233; 34; 10]; VDict [(VInt 1, VInt 2)]; VInt (-7)] ++ [32])
+  read_file env_witness gen_cfg_r gen_r_lstrip gen_r_reposition_bytes gen_r_ignore_newline
+    (file_text env_witness [32; 10] [VList [VInt 1; VInt (-2)]; VStr [233; 34; 10]; VDict [(VInt 1, VInt 2)]; VInt (-7)] ++ [10])
   = Ok [VList [VInt 1; VInt (-2)]; VStr [233; 34; 10]; VDict [(VInt 1, VInt 2)]; VInt (-7)].
 Proof. vm_compute. reflexivity. Qed.
 
